@@ -105,7 +105,7 @@ def run(rng: Rng, tier: str, index: int) -> RunResult:
                 given_kid = key.kid
                 # history of calls touching the lazy state
                 events = [krng.pick(["thumbprint", "as_dict", "ensure_kid", "keyset", "as_dict_public", "keyset_as_dict", "kid", "as_dict_public",
-                                     "keyset_as_dict_public"])
+                                     "keyset_as_dict_public", "as_dict_stamped", "scribble_export"])
                           for _ in range(krng.randrange(2, 7))]
                 first_auto = None
                 for pos, ev in enumerate(["thumbprint"] + events + ["thumbprint"]):
@@ -131,6 +131,21 @@ def run(rng: Rng, tier: str, index: int) -> RunResult:
                             if d["keys"][0].get("kid") != key.kid:
                                 viol("kid:keyset-export-differs", "public KeySet export carries kid %r, key has %r (events so far %r)" % (
                                     d["keys"][0].get("kid"), key.kid, (["thumbprint"] + events)[:pos + 1]), {"rep": name})
+                        elif ev == "as_dict_stamped":
+                            # an export that stamps members on the way out does not rename the key
+                            before_kid = key.kid
+                            stamped = key.as_dict(kid="stamped-for-this-export", use="sig") if krng.chance(0.5) else \
+                                KeySet([key]).as_dict(private=(True if material.kty == "oct" or key.is_private else None), kid="stamped-for-this-export")
+                            if before_kid is not None and key.kid != before_kid:
+                                viol("kid:overwritten", "as_dict(kid=...) changed the key's own kid from %r to %r" % (before_kid, key.kid), {"rep": name})
+                            elif before_kid is None and key.kid == "stamped-for-this-export":
+                                viol("kid:auto-differs-from-thumbprint", "as_dict(kid=...) left its kid on the key object", {"rep": name})
+                        elif ev == "scribble_export":
+                            exported = key.as_dict()
+                            for member in list(exported):
+                                if member != "kty":
+                                    exported[member] = "AAAA"
+                            exported["kid"] = "scribbled"
                         elif ev == "ensure_kid":
                             key.ensure_kid()
                         elif ev == "keyset":
